@@ -388,7 +388,7 @@ func c02FloatView(c *core.Ctx, r *core.Report) {
 			return source(x.X, base, depth+1)
 		case *ssa.Extract:
 			if call, ok := x.Tuple.(*ssa.Call); ok && x.Index == 0 {
-				if f := core.CalleeFunc(call); f != nil && f.Name() == "ConvertToFloatAndReturnString" && len(call.Call.Args) > 0 {
+				if f := core.CalleeFunc(call); f != nil && c.BaseName(f) == "ConvertToFloatAndReturnString" && len(call.Call.Args) > 0 {
 					return source(call.Call.Args[0], base, depth+1)
 				}
 			}
